@@ -208,6 +208,10 @@ func (goh *GoatOverHttp) retrieve(id string) (*httpReadWriter, bool) {
 			clock:     goh.clock,
 		}
 
+		// a connection's idle time counts from its creation, not from the epoch:
+		// otherwise the cleaner's next tick sweeps it before its first envelope
+		conn.bumpActivity()
+
 		goh.conns.value[id] = conn
 	}
 
